@@ -16,13 +16,16 @@ def run(ctx):
     import copy
     units = []
     for u in fc_args.UNITS:
-        if u.name in ("Wrapf.build_arg_list_impl", "Wrapf.build_arg_list_interface[plain]"):
+        if u.name in ("Wrapf.build_arg_list_impl", "Wrapf.build_arg_list_interface[plain]", "Wrapf.dump_abstract_interfaces[result]"):
             u2 = copy.copy(u)
             u2.prop = "C05"
             units.append(u2)
     from contracts import wrapf_helpers, wrapp_cppif
     units += wrapf_helpers.UNITS + wrapp_cppif.UNITS
     skip = [k["skip"] for k in ctx.known if k["status"] == "open" and k.get("skip")]
+    for k in ctx.known:
+        if k["status"] == "open":
+            skip += [list(x) for x in k.get("skips", [])]
     mon = ("m_compile", lambda v: None, lambda nm: {"skip": skip}, 400)
     ctx.pyvc(units, dict((u.name, mon) for u in units))
     # bounded stand-in (never counted as proved): the compilers' verdict on what the real generator writes
@@ -45,7 +48,7 @@ def run(ctx):
     if r2["violation"]:
         ctx.violation("bounded/m_e2e", {"inputs": r2["inputs"], "observed": r2["violation"]}, True)
     for k in ctx.known:
-        if k["status"] == "open" and k.get("skip"):
+        if k["status"] == "open" and (k.get("skip") or "skips" in k):
             res = ctx.monitor("m_compile", "replay", json.dumps(k["witness"]))
             if res.get("violation"):
                 ctx.report_known(k)
